@@ -335,6 +335,81 @@ func C03(c *core.Ctx) {
 		c.Decide(found, "R3.1", "length-as-tlnum:"+w[0]+"."+w[1]+":"+w[2], p.Pos(fn.Pos()), "the value length goes through TLNum."+w[2], w[0]+"."+w[1]+" does not size/write its length field with TLNum."+w[2])
 	}
 
+	// ---- R3.4 ShrinkLength may return a re-sliced buffer: its result must replace the
+	// buffer it was given (wire[k] = ShrinkLength(wire[k], n)), on every call
+	nShrink := 0
+	for _, fn := range p.Funcs() {
+		for _, ci := range core.FindCalls(fn, core.CalleeID{Pkg: "std/encoding", Name: "ShrinkLength"}) {
+			nShrink++
+			c.Funcs[core.FuncName(fn)] = true
+			arg := ci.Common().Args[0]
+			stored := false
+			if v := ci.Value(); v != nil {
+				for _, r := range core.Refs(v) {
+					if st, ok := r.(*ssa.Store); ok && st.Val == ssa.Value(v) {
+						// stored into the slot the argument was loaded from
+						if u, ok := core.Strip(arg).(*ssa.UnOp); ok && core.Same(u.X, st.Addr) {
+							stored = true
+						}
+					}
+				}
+			}
+			c.Decide(stored, "R3.4", "shrink-result-stored-back:"+core.FuncName(fn), c.Pos(ci), "the shrunk buffer replaces the original slot", core.FuncName(fn)+" discards the buffer returned by ShrinkLength: when the shorter length needs fewer length bytes the packet keeps its stale, longer header and the outer length field is wrong")
+		}
+	}
+	c.Floor("R3.4", "ShrinkLength call sites", nShrink, 2)
+
+	// ---- R3.5 chunked copy loops: a destination offset that is carried around the loop
+	// must advance relative to itself (off = off ± n), otherwise the third chunk lands
+	// on top of the second
+	nCopy := 0
+	for _, fn := range p.FuncsIn(core.ModPath + "/std/encoding") {
+		core.Instrs(fn, func(in ssa.Instruction) {
+			cl, ok := isBuiltinCall(in, "copy")
+			if !ok || !core.InLoop(in.Block()) {
+				return
+			}
+			sl, ok := core.Strip(cl.Call.Args[0]).(*ssa.Slice)
+			if !ok || sl.Low == nil {
+				return
+			}
+			phi, ok := core.StripConv(sl.Low).(*ssa.Phi)
+			if !ok || loopHeader(phi.Block()) != phi.Block() {
+				return
+			}
+			nCopy++
+			c.Funcs[core.FuncName(fn)] = true
+			okAcc := true
+			seen := map[*ssa.Phi]bool{}
+			var chk func(ph *ssa.Phi)
+			chk = func(ph *ssa.Phi) {
+				if seen[ph] {
+					return
+				}
+				seen[ph] = true
+				for i, e := range ph.Edges {
+					pred := ph.Block().Preds[i]
+					if ph == phi && !phi.Block().Dominates(pred) {
+						continue // initial value
+					}
+					switch x := core.StripConv(e).(type) {
+					case *ssa.Phi:
+						chk(x)
+					case *ssa.BinOp:
+						if !((x.Op == token.ADD || x.Op == token.SUB) && (usesPhi(x.X, phi, seen) || usesPhi(x.Y, phi, seen))) {
+							okAcc = false
+						}
+					default:
+						okAcc = false
+					}
+				}
+			}
+			chk(phi)
+			c.Decide(okAcc, "R3.5", "chunk-offset-accumulates:"+core.FuncName(fn), c.Pos(in), "the destination offset of the chunked copy advances relative to itself", core.FuncName(fn)+": the destination offset of a chunked copy loop is overwritten instead of advanced: from the third chunk on, bytes are copied to the wrong place (values spanning three or more segments decode to wrong bytes of the right length)")
+		})
+	}
+	c.Floor("R3.5", "chunked copy loops in std/encoding", nCopy, 1)
+
 	// ---- R3.2 primitive tables
 	encPk := p.Pkgs[core.ModPath+"/std/encoding"]
 	if encPk == nil {
@@ -573,3 +648,19 @@ func recvName(fd *ast.FuncDecl) string {
 }
 
 var _ = token.ADD
+
+// usesPhi: v is phi itself or a phi that merges it.
+func usesPhi(v ssa.Value, phi *ssa.Phi, seen map[*ssa.Phi]bool) bool {
+	v = core.StripConv(v)
+	if v == ssa.Value(phi) {
+		return true
+	}
+	if p2, ok := v.(*ssa.Phi); ok {
+		for _, e := range p2.Edges {
+			if core.StripConv(e) == ssa.Value(phi) {
+				return true
+			}
+		}
+	}
+	return false
+}
